@@ -21,6 +21,9 @@ pub enum Target
     Spawned(u8),
     /// a `SysId` whose entity does not exist
     SpawnedMissing,
+    /// `World::syscall_once(x, f)`: runs `f` on fresh state that is not cached; the state cached for `Sys(0)` is
+    /// neither used nor touched.
+    SysOnce,
 }
 
 /// A top-level call and the chain of nested calls made from queued commands (each from the previous one's command).
@@ -114,6 +117,7 @@ fn call(world: &mut World, t: Target, x: u32)
             let id = IDS.with(|ids| ids.borrow()[4]);
             spawned_syscall::<In<u32>, u32>(world, id, x).ok()
         }
+        Target::SysOnce => Some(world.syscall_once(x, sys_f)),
     };
     LOG.with(|l| l.borrow_mut().push(Rec::Ret{ target: t, result }));
 }
@@ -135,7 +139,7 @@ pub struct Model17
 
 fn func_of(t: Target) -> u8
 {
-    match t { Target::Sys(f) => f.min(2), Target::Named(_, f) => f.min(2), Target::Spawned(i) => i.min(3), Target::SpawnedMissing => 0 }
+    match t { Target::Sys(f) => f.min(2), Target::Named(_, f) => f.min(2), Target::Spawned(i) => i.min(3), Target::SpawnedMissing => 0, Target::SysOnce => 0 }
 }
 
 impl Model17
@@ -164,7 +168,7 @@ impl Model17
             }
             _ => {}
         }
-        let recursive = active.contains(&t);
+        let recursive = active.contains(&t) || t == Target::SysOnce;
         let exclusive = func_of(t) == 2;
         let markers = self.applied;
         let (local, added) = if recursive
@@ -283,6 +287,7 @@ pub fn targets() -> Vec<Target>
     vec![
         Target::Sys(0), Target::Sys(1), Target::Sys(2), Target::Named(0, 0), Target::Named(1, 0), Target::Named(0, 1),
         Target::Named(0, 2), Target::Spawned(0), Target::Spawned(1), Target::Spawned(2), Target::Spawned(3), Target::SpawnedMissing,
+        Target::SysOnce,
     ]
 }
 
